@@ -75,6 +75,10 @@ def check_kw(dc, st, kw_pv, dflt, label):
         return None
     exp = ir.PV(dc.P['name'], dict(dflt.vals))
     exp.vals.update(kw_pv)
+    for fname, node in dc.P['fields']:
+        d = node.get('desc')
+        if d and d['k'] == 'autolength' and fname not in kw_pv:
+            exp.vals[fname] = len(exp.vals[d['of']])        # not assigned: reads as the computed value
     got = ir.extract(p, dc.P, pkts)
     st.add('states', (tuple(dc.spec.get('names', ())), dc.spec.get('wrapper'), dc.spec.get('local', False), tuple(sorted(kw_pv))))
     if got != exp:
